@@ -170,8 +170,11 @@ def _checksum(b):
     return ("%02X" % (sum(b) % 256)).encode()
 
 
-def _cut(frame_body, values, float_groups, ts):
-    """frame body (between STX and checksum) -> pieces"""
+def _cut(frame_body, values, float_groups, ts, used=None):
+    """frame body (between STX and checksum) -> pieces.  `used`: groups already placed in earlier frames of the message:
+    when several groups carry the same text (a literal the pattern forces, like a unit) the first one not used yet is
+    taken, so that successive frames get successive groups"""
+    used = used if used is not None else set()
     marks = []
     for g, v in values.items():
         if not v:
@@ -192,7 +195,7 @@ def _cut(frame_body, values, float_groups, ts):
                 break
             marks.append((i, i + len(ts), ("ts",)))
             start = i + len(ts)
-    marks.sort()
+    marks.sort(key=lambda m: (m[0], m[1], (0, 0) if m[2][0] == "ts" else (1, (m[2][1] in used), m[2][1])))
     pieces = []
     pos = 0
     for a, b, what in marks:
@@ -201,6 +204,8 @@ def _cut(frame_body, values, float_groups, ts):
         if a > pos:
             pieces.append(("lit", frame_body[pos:a]))
         pieces.append(what)
+        if what[0] == "grp":
+            used.add(what[1])
         pos = b
     if pos < len(frame_body):
         pieces.append(("lit", frame_body[pos:]))
@@ -268,8 +273,9 @@ def observe_adapter(mod):
     # the timestamp: the 14 digits the first frame ends with (before CR ETX)
     m = re.search(rb"(\d{14})\r\x03$", bodies0[0])
     ts = m.group(1) if m else None
-    t0 = [_cut(b, v0, float_groups, ts) for b in bodies0]
-    t1 = [_cut(b, v1, float_groups, ts) for b in bodies1]
+    u0, u1 = set(), set()
+    t0 = [_cut(b, v0, float_groups, ts, u0) for b in bodies0]
+    t1 = [_cut(b, v1, float_groups, ts, u1) for b in bodies1]
     if t0 != t1:
         raise ValueError("the two observation runs disagree on the template structure")
     glue = (any(k == "messages" for k, _ in log0),
